@@ -971,7 +971,7 @@ func (w *World) ruleObjectIndexForms(r *Report, rule string) {
 	}
 	w.ruleCompactHeaders(r, rule, wo, 0x60, 0x6f)
 	// readers bounds-check the index
-	w.ruleIndexGuards(r, rule, []string{"(*Decoder).ReadLenTagObject", "(*Decoder).readTagObject"})
+	w.ruleIndexGuardsPX(r, rule, []string{"(*Decoder).ReadLenTagObject", "(*Decoder).readTagObject"})
 }
 
 // ruleIndexGuards: every element access on a per-stream table of the Decoder
